@@ -12,21 +12,28 @@ RULE = ("Model-based TestResult histories (0..6 tests, every outcome kind given 
         "names and reasons, tags inside/outside tests, explicit time() values or none, a second startTestRun) are "
         "fed to ExtendedToStreamDecorator whose events go to a recorder and to StreamToExtendedDecorator over an "
         "extended recorder; round-trip oracle on the final result plus well-formedness oracle on the stream. "
-        "Also generated: one details dict object handed to several calls, fractional and non-UTC times, chunks of 70 kB, chunk boundaries inside characters, upper-case / empty / long / RFC-2231-looking parameter values; a traceback file is accepted only for exc_info outcomes and a reason only for skips given one. "
+        "Also generated: one details dict object handed to several calls, fractional and non-UTC times, chunks of 70 kB, chunk boundaries inside characters, upper-case / empty / long / RFC-2231-looking parameter values; a traceback file is accepted only for exc_info outcomes and a reason only for skips (for a skip given none: any but the reason of an earlier test). "
         "Third audit: the replayed skip reason is read the way a consumer reads it (decoded with the charset its content type declares); histories whose run was started on demand "
         "are in half of the cases not closed by a stopTestRun (every bracket must be there all the same) or get an explicit second run; contents that read differently at "
         "every evaluation, one Content object per detail name for the whole history ('live': the bytes sent must be those of an evaluation made during that very outcome call); "
-        "the same instant under two UTC offsets; reasons of several thousand characters; a bare addSkip(test); details stretched to 12 chunks; word-sized / padded / non-ASCII tags and test ids; "
+        "the same instant under two UTC offsets; reasons of several thousand characters; details stretched to 12 chunks; word-sized / padded / non-ASCII tags and test ids; "
         "content types are compared field by field (type, subtype, parameters), not with the tree's ContentType.__eq__. "
         "Directed exhaustive grid (every seed): offset pairs x run kinds, long and non-ASCII reasons x skip forms, on-demand run then explicit run with run-level tags, "
-        "unclosed runs x outcome kinds, live contents over three tests, 12-chunk details, 8 tests, a shared details dict after a skip with a reason, bare skips, wide tags and ids, every content-type row next to a chunk-less and an all-empty detail. "
+        "unclosed runs x outcome kinds, live contents over three tests, 12-chunk details, 8 tests, a shared details dict after a skip with a reason, skips with an empty reason or details={} only, wide tags and ids, every content-type row next to a chunk-less and an all-empty detail. "
         "Non-trivial: >= 2 details with >= 2 chunks, or a parameterised content type, or >= 3 tests; distinct = "
         "distinct canonical history.")
 ASSUMPTIONS = [
     "details whose chunks are all empty need not survive (statement: every non-empty detail); an empty skip reason counts as none",
+    "every skip is given a reason, details, or both: a bare addSkip(test) is not a well-formed TestResult call (TestResult.addSkip itself fails on it) and is not generated. "
+    "A skip given no reason (details only, or an empty one) may be sent and replayed with a reason of the implementation's own (TestResult.addSkip reports 'No reason given' for these) - "
+    "only the reason of an earlier test of the same history turning up there is reported (a leak through a shared details dict)",
+    "between the inprogress event of startTest and the final status, interim events are allowed as StreamResult.status documents them: a file event may carry test_status 'inprogress', "
+    "file-less 'inprogress' events of the same test are ignored; 'exactly one final status' is about final statuses. The events of an outcome may be sent from the outcome call or later, "
+    "up to the return of that test's stopTest",
     "with no time() value supplied nothing is required of the replayed times (they may be invented or absent)",
     "a time() value given before the run has been started (explicitly or on demand) is forgotten by startTestRun, as documented for TestResult.startTestRun",
-    "'the supplied times' is read as the supplied values: same instant and same UTC offset (a stamp normalised to another offset is reported as time-converted); time() values carry TZ information, as TestResult.time documents - naive datetimes are not generated",
+    "'the supplied times' are compared as instants (datetime equality, microseconds included): a stamp that comes back normalised to another UTC offset is the supplied time; "
+    "time() values carry TZ information, as TestResult.time documents - naive datetimes are not generated",
     "on the stream the events of one detail may be cut differently from the chunks the content yields (coalesced, split, empty chunks omitted): required are the identical concatenated bytes, eof on exactly "
     "the last event of the file, and no more empty events than the content has empty chunks; events of different details may interleave. A detail that yields no bytes at all is still announced "
     "by (at least) one file event carrying eof - the statement's 'file events of its details' is read as: every detail handed over has some",
@@ -170,11 +177,9 @@ def run_case(spec):
                 # a fresh dict of the same Content objects for every call
                 shared_details[repr(sorted(p["details"].items()))] = {name: ent["content"] for name, ent in ents.items()}
             e["out_from"] = len(rec.events)
-            if op["kind"] == "skip" and p["form"] == "bare":
-                r.addSkip(cur)
-                info = {"kind": "skip", "details": None, "err": None, "reason": None}
-            else:
-                info = H.outcome_call(r, cur, op, shared=shared_details)
+            info = H.outcome_call(r, cur, op, shared=shared_details)
+            # the events of an outcome may be sent from the outcome call or later, up to the return of the test's
+            # stopTest (the statement orders the events, it does not name the call that emits them)
             e["out_to"] = len(rec.events)
             e["details"] = {}
             e["err"] = info["err"] is not None
@@ -200,6 +205,8 @@ def run_case(spec):
         elif k == "stopTest":
             r.stopTest(cur)
             tags.stop_test()
+            if expected and "kind" in expected[-1]:
+                expected[-1]["out_to"] = len(rec.events)
     explicit = any(op["op"] == "startTestRun" for op in spec["ops"])
     if started and not any(op["op"] == "stopTestRun" for op in spec["ops"][-1:]) and (explicit or spec.get("close", True)):
         # flushes nothing when every test finished.  A run that was only ever started on demand (a bare
@@ -228,6 +235,7 @@ def run_case(spec):
     elif len(brackets) != len(expected):
         vs.append(V("roundtrip", "test-count", "%d tests reported, %d replayed" % (len(expected), len(brackets))))
     else:
+        seen_reasons = set()
         for e, b in zip(expected, brackets):
             start, out, stop = b
             ctx = out[2]
@@ -239,10 +247,8 @@ def run_case(spec):
             if ctx["tags"] != e["tags"]:
                 vs.append(V("roundtrip", "tags", "tags at outcome %r, reporter had %r" % (sorted(ctx["tags"]), sorted(e["tags"]))))
             st_time, out_time = start[2]["time"], ctx["time"]
-            for got_t, sent_t in ((st_time, e["start"]), (out_time, e["stop"])):
-                # the very value: same instant and same UTC offset, microseconds included
-                if sent_t is not None and got_t is not None and got_t == sent_t and got_t.isoformat() != sent_t.isoformat():
-                    vs.append(V("roundtrip", "time-converted", "time %r came back as %r" % (sent_t.isoformat(), got_t.isoformat())))
+            # (compared as instants, microseconds included: datetime equality - the same instant rendered under another
+            # UTC offset is the supplied time)
             if e["start"] is not None and st_time != e["start"]:
                 vs.append(V("roundtrip", "start-time", "start time %r, supplied %r" % (st_time, e["start"])))
             if e["stop"] is not None and out_time != e["stop"]:
@@ -274,15 +280,29 @@ def run_case(spec):
                     how = " (detail 'reason' declared as %s)" % det["reason"][0]
                 if got != e["reason"]:
                     vs.append(V("roundtrip", "skip-reason", "skip reason %r replayed as %r%s" % (e["reason"][:80], got if got is None else got[:80], how)))
-            # a traceback is only generated from exc_info, a reason only for a skip that was given one
-            allowed = ({"traceback"} if e["err"] else set()) | ({"reason"} if e["kind"] == "skip" and e["reason"] is not None else set())
+            # a traceback is only generated from exc_info, a reason only for a skip.  A skip that was given no reason
+            # may come with one of the implementation's own (TestResult.addSkip says "No reason given" for these) -
+            # but not with the reason an earlier test of this history was given
+            allowed = ({"traceback"} if e["err"] else set()) | ({"reason"} if e["kind"] == "skip" else set())
             extra = set(det) - set(e["details"]) - allowed
             if extra:
                 vs.append(V("roundtrip", "detail-invented", "details %r were never sent" % sorted(extra)))
+            if e["kind"] == "skip" and e["reason"] is None:
+                got = ctx.get("reason")
+                if got is None and "reason" in det and "reason" not in e["details"]:
+                    got = _declared_text(det["reason"])
+                if got and got in seen_reasons:
+                    vs.append(V("roundtrip", "detail-invented", "a skip given no reason was replayed with the reason of an earlier test: %r" % got[:80]))
+            if e["reason"]:
+                seen_reasons.add(e["reason"])
 
     # ---------------- the stream in between
     evs = rec.events
+    sent_reasons = set()
     for e in expected:
+        earlier_reasons = set(sent_reasons)
+        if e["reason"]:
+            sent_reasons.add(e["reason"])
         first = next((x for x in evs[e["stream_from"]:] if x[0] == "status"), None)
         if first is None or first[1]["test_id"] != e["id"] or first[1]["test_status"] != "inprogress":
             vs.append(V("stream", "inprogress", "startTest(%s) did not emit an inprogress event first: %r" % (e["id"], first and first[1])))
@@ -305,7 +325,11 @@ def run_case(spec):
         files = {}
         order = []
         for s in seg[:-1]:
-            if s["file_name"] is None or s["test_status"] is not None:
+            # (StreamResult.status: as many interim events as desired, 'inprogress' at any intermediary point - a file
+            # event may repeat the interim status and a file-less 'inprogress' may sit between the files)
+            if s["file_name"] is None and s["test_status"] == "inprogress":
+                continue
+            if s["file_name"] is None or s["test_status"] not in streams.INTERIM:
                 vs.append(V("stream", "non-file-event", "unexpected event before the final status: %r" % (s,)))
                 continue
             if s["file_name"] not in files:
@@ -335,9 +359,14 @@ def run_case(spec):
             if eofs != [False] * (len(got) - 1) + [True]:
                 vs.append(V("stream", "eof", "detail %r eof flags %r (must be set exactly on the last chunk)" % (name, eofs)))
         for name, got in files.items():
-            allowed_f = (("traceback",) if e["err"] else ()) + (("reason",) if e["kind"] == "skip" and e["reason"] is not None else ())
+            allowed_f = (("traceback",) if e["err"] else ()) + (("reason",) if e["kind"] == "skip" else ())
             if name not in e["details"] and name not in allowed_f:
                 vs.append(V("stream", "file-invented", "file %r was never a detail" % name))
+            elif name == "reason" and name not in e["details"] and e["kind"] == "skip" and e["reason"] is None:
+                # a reason of the implementation's own is fine, the reason of an earlier test is a leak
+                text = b"".join(g["file_bytes"] or b"" for g in got).decode("utf8", "replace")
+                if text and text in earlier_reasons:
+                    vs.append(V("stream", "file-invented", "a skip given no reason was sent with the reason of an earlier test: %r" % text[:80]))
             if [g["eof"] for g in got][-1] is not True or any(g["eof"] for g in got[:-1]):
                 vs.append(V("stream", "eof", "file %r eof flags %r" % (name, [g["eof"] for g in got])))
     nt = rich >= 2 or param_ct or len(expected) >= 3
@@ -362,8 +391,8 @@ def s_case(draw):
             z = draw(st.integers(0, 11))
             if z == 0:
                 op["payload"]["reason_rep"] = 400          # a reason of some thousand characters
-            elif z == 1 and op["payload"]["form"] == "reason":
-                op["payload"]["form"] = "bare"             # addSkip(test): neither reason nor details
+            # (z == 1 used to turn the call into a bare addSkip(test): TestResult.addSkip itself does not accept that
+            # call, so it is not a well-formed history - see ASSUMPTIONS; the draw is kept for the case stream)
     if not any(op["op"] == "startTestRun" for op in ops):
         # the run is started on demand; in half of these an explicit second run follows the implicit one
         stops = [i for i, op in enumerate(ops) if op["op"] == "stopTest"]
@@ -470,10 +499,11 @@ def _enum_grid():
             for dets in ({"log": _LOG}, {}):
                 yield _g([_START] + _test(0, "skip", form="reason+details", reason="first one's reason", details=dets) +
                          _test(1, kind, details=dets, **form) + [_STOP], share=share)
-    # 9. addSkip(test) and nothing else
+    # 9. skips without a reason to preserve: an empty one (positional, by keyword), and details={} only
     for tk in ("case", "placeholder"):
         for run in (True, False):
-            ops = ([_START] if run else []) + _test(0, "skip", tk, form="bare") + _test(1, "skip", tk, form="reason", reason="") + _test(2, "skip", tk, form="bare", pre=[_tag("u")])
+            ops = (([_START] if run else []) + _test(0, "skip", tk, form="reason", reason="", call="kw") + _test(1, "skip", tk, form="reason", reason="") +
+                   _test(2, "skip", tk, form="details", details={}, pre=[_tag("u")]))
             yield _g(ops + ([_STOP] if run else []), close=run)
             yield _g(ops + ([_STOP] if run else []), close=run, wide=True)
     # 10. every content-type row alone, next to a detail without chunks and one with only empty chunks
@@ -489,4 +519,4 @@ def subchecks(tier):
     return [Sub("roundtrip_histories", run_case, s_case(), 2000 if q else 120000),
             Sub("directed_grid", run_case, enum=_enum_grid, enum_complete=True,
                 note="offset pairs, long / non-ASCII reasons x skip forms, on-demand then explicit run, unclosed runs, live contents, "
-                     "12-chunk details, 8 tests, shared dict after a skip with a reason, bare skips, wide tags and ids")]
+                     "12-chunk details, 8 tests, shared dict after a skip with a reason, empty-reason skips, wide tags and ids")]
